@@ -123,7 +123,11 @@ def quantile_(array, inv_idx, *, q, axis, skipna, group_idx, dtype=None, out=Non
     # TODO: could support all the interpolations here
     gamma = np.broadcast_to(virtual_index, idxshape) - lo_
     result = _lerp(loval, hival, t=gamma, out=out, dtype=dtype)
-    if not skipna and np.any(nanmask):
+    if skipna:
+        # a group without a single valid value has no quantile: the index arithmetic above
+        # points into a neighbouring group for it (actual_sizes was decremented to -1)
+        nanmask = actual_sizes < 0
+    if np.any(nanmask):
         result[..., nanmask] = np.nan
     return result
 
